@@ -22,9 +22,15 @@ const (
 	c21No = iota
 	c21Yes
 	c21Err
+	// a failed check whose boolean is true (the Application contract does not
+	// define the boolean of a failed check; e.g. "last known status" reported
+	// together with the error). It is a FAILED check, not a recognition.
+	c21ErrTrue
 )
 
-var c21AnswerNames = [...]string{"no", "yes", "err"}
+var c21AnswerNames = [...]string{"no", "yes", "err", "err+true"}
+
+func c21Failed(answer int) bool { return answer == c21Err || answer == c21ErrTrue }
 
 // c21App is a scripted firewall.Application: its answer for every peer is set
 // by the harness before each validation; every consultation is logged.
@@ -51,6 +57,8 @@ func (a *c21App) IsRecognized(pk *operator.PublicKey) (bool, error) {
 		return true, nil
 	case c21Err:
 		return false, a.failure
+	case c21ErrTrue:
+		return true, a.failure
 	}
 	return false, nil
 }
@@ -173,8 +181,10 @@ func TestVerif_C21_Policy(t *testing.T) {
 					a.answers[key] = c21No
 				case 2, 6:
 					a.answers[key] = c21Yes
-				case 1, 4:
+				case 1:
 					a.answers[key] = c21Err
+				case 4:
+					a.answers[key] = rapid.SampledFrom([]int{c21Err, c21ErrTrue}).Draw(t, "failedCheckBoolean")
 				default: // keep the previous answer
 				}
 				vec[i] = a.answers[key]
@@ -185,7 +195,7 @@ func TestVerif_C21_Policy(t *testing.T) {
 			if nApps > 0 && rapid.Bool().Draw(t, "disturbOthers") {
 				other := rapid.SampledFrom(peers).Draw(t, "otherPeer")
 				if other != k {
-					apps[rapid.IntRange(0, nApps-1).Draw(t, "otherApp")].answers[peerKey[other]] = rapid.IntRange(0, 2).Draw(t, "otherAnswer")
+					apps[rapid.IntRange(0, nApps-1).Draw(t, "otherApp")].answers[peerKey[other]] = rapid.IntRange(0, 3).Draw(t, "otherAnswer")
 				}
 			}
 
@@ -203,7 +213,7 @@ func TestVerif_C21_Policy(t *testing.T) {
 				if len(a.log) == 0 {
 					continue
 				}
-				if vec[i] == c21Err && (firstErr < 0 || a.first < firstErr) {
+				if c21Failed(vec[i]) && (firstErr < 0 || a.first < firstErr) {
 					firstErr = a.first
 				}
 				if vec[i] == c21Yes && (firstYes < 0 || a.first < firstYes) {
@@ -219,7 +229,7 @@ func TestVerif_C21_Policy(t *testing.T) {
 				if len(a.log) > 0 {
 					consulted = append(consulted, i)
 					switch vec[i] {
-					case c21Err:
+					case c21Err, c21ErrTrue:
 						consultedErr = true
 					case c21Yes:
 						consultedYes = true
